@@ -33,12 +33,13 @@ template <class X> struct Q {
         static GuardedInput gin; gin.set(w.data(), w.size() * sizeof(Char), (int)(c.case_index & 1));
         const Char* first = (const Char*)gin.ptr;
         QList* list = nullptr; int count = -3; int rc; UriMemoryManager* mm = nullptr;
+        bool noCount = (c.case_index % 11) == 4; int* cp = noCount ? nullptr : &count;       // the item count is optional
         LibcWatch& lw = libc_watch(); lw.reset();
         {
             LibScope ls;
-            if (variant == 0) { rc = X::DissectQueryMalloc(&list, &count, first, first + w.size()); plus = 1; br = 3; }
-            else if (variant == 1) rc = X::DissectQueryMallocEx(&list, &count, first, first + w.size(), plus, (UriBreakConversion)br);
-            else { mm = led.mgr(); rc = X::DissectQueryMallocExMm(&list, &count, first, first + w.size(), plus, (UriBreakConversion)br, mm); }
+            if (variant == 0) { rc = X::DissectQueryMalloc(&list, cp, first, first + w.size()); plus = 1; br = 3; }
+            else if (variant == 1) rc = X::DissectQueryMallocEx(&list, cp, first, first + w.size(), plus, (UriBreakConversion)br);
+            else { mm = led.mgr(); rc = X::DissectQueryMallocExMm(&list, cp, first, first + w.size(), plus, (UriBreakConversion)br, mm); }
         }
         c.evaluations++;
         Str what = fmt("dissect(\"%s\", plusToSpace=%d, breakConversion=%d)", esc(q).c_str(), plus, br);
@@ -50,7 +51,7 @@ template <class X> struct Q {
         // decoded NULs cut C strings short: compare up to the first NUL
         for (auto& it : model) { size_t z = it.key.find('\0'); if (z != Str::npos) it.key.resize(z); z = it.value.find('\0'); if (z != Str::npos) it.value.resize(z); }
         bool literalBreak = (q.find('\r') != Str::npos || q.find('\n') != Str::npos) && br != 3;
-        if (count != (int)got.size()) c.violation("C17", fmt("query/%s/item-count-wrong", X::tag()), what + fmt(" itemCount=%d list-length=%zu", count, got.size()));
+        if (!noCount && count != (int)got.size()) c.violation("C17", fmt("query/%s/item-count-wrong", X::tag()), what + fmt(" itemCount=%d list-length=%zu", count, got.size()));
         if (!literalBreak && !same_items(got, model)) c.violation("C17", fmt("query/%s/dissect-differs-from-model", X::tag()), what + " library=" + show(got) + " model=" + show(model));
         { LibScope ls; if (mm) X::FreeQueryListMm(list, mm); else X::FreeQueryList(list); }
         if (mm) { if (led.outstanding()) { c.violation("C13", fmt("query/%s/leak-after-free-query-list", X::tag()), what + " " + led.describe_live()); led.release_all(); } if (led.bad_free) { c.violation("C13", fmt("query/%s/bad-free", X::tag()), what + led.bad_free_note); led.bad_free = 0; led.bad_free_note.clear(); } }
